@@ -374,8 +374,8 @@ def structured_scenarios(rng, tier):
     # (f) suspend: idle just short of 3 ms broken by a glitch, then 3 ms; (e) reset from suspend at 2.5 us
     sc["fs_suspend_boundaries"] = [
         S(J, "T3MS", -r(2, 9)), S(K, (), 1), S(J, "T2MS", r(1, 50)), S(SE0, (), 2), S(J, "T3MS", 3), S(J, (), 20),
-        S(SE0, "T2P5US", -2), S(J, (), 5), S(K, (), 3), S(J, "T3MS", 4),
-        S(SE0, "T2P5US", 2, fso=True), S(SE0, "T5US", 3, fso=True), S(J, (), 9, fso=True)]
+        S(SE0, "T2P5US", -2), S(J, (), 5), S(SE0, "T2P5US", 2, fso=True), S(SE0, "T5US", 3, fso=True),
+        S(J, (), 9, fso=True)]
     # (a)(d) handshake with only two pairs, then silence until the deadline; then a good one with long chirps
     sc["two_pairs_then_timeout"] = [
         S(J, (), 10), S(SE0, RESET_TO_CHIRP_END, 10)] + chirps(2, 3, 3) + [
@@ -388,10 +388,28 @@ def structured_scenarios(rng, tier):
     # (a) chirps that are each one cycle too short for the 2.5 us filter, and exactly long enough
     sc["short_chirps"] = [S(J, (), 6), S(SE0, RESET_TO_CHIRP_END, 5)] + chirps(4, -1, -1) + chirps(1, 0, 0) + [
         S(SE0, "T2P5MS", 5), S(J, (), 8)]
-    # full life cycle: HS, HS suspend, resume, HS reset (3 ms + 200 us), no answer -> fallback, FS suspend
-    sc["hs_life_cycle"] = to_high_speed() + hs_revert(J) + [
-        S(J, (), 30), S(K, (), 4), S(SE0, "T3MS", 1), S(SE0, "T200US", 4), S(SE0, ("T2MS",), 8),
-        S(SE0, "T2P5MS", 6), S(J, "T3MS", 6), S(K, (), 3), S(J, (), 5)]
+    # HS suspend -> resume K -> HS again -> restriction appears
+    sc["hs_suspend_resume"] = to_high_speed() + hs_revert(J) + [
+        S(J, (), 30), S(K, (), 4), S(SE0, (), 8), S(SE0, (), 4, fso=True), S(J, (), 5, fso=True)]
+    # HS reset (3 ms SE0 + 200 us, line still SE0), device chirps again, nobody answers -> fallback to FS
+    sc["hs_reset_no_answer"] = to_high_speed() + hs_revert(SE0) + [
+        S(SE0, ("T2MS", "T2P5MS"), 8), S(J, (), 9)]
+    # the suspend entered from HS ends by a *bus reset* that does not lead back to HS (restricted at that moment);
+    # later 3 ms of FS idle -> suspend entered at FS -> resume K must not enter HS
+    sc["hs_suspend_reset_restricted_fs_suspend_resume"] = to_high_speed() + hs_revert(J) + [
+        S(J, (), 9), S(SE0, "T2P5US", 3, fso=True), S(J, (), 4, fso=True), S(J, "T3MS", 4), S(J, (), 9),
+        S(K, (), 4), S(J, (), 6)]
+    # same, the reset's handshake fails because the host does not chirp within 2.5 ms
+    sc["hs_suspend_reset_failed_fs_suspend_resume"] = to_high_speed() + hs_revert(J) + [
+        S(J, (), 9), S(SE0, ("T2P5US", "T2MS", "T2P5MS"), 8), S(J, "T3MS", 6), S(J, (), 9), S(K, (), 4), S(J, (), 6)]
+    # sibling: the reset from the HS suspend succeeds -> HS -> HS suspend again -> resume K enters HS (legitimately)
+    sc["hs_suspend_reset_ok_suspend_resume"] = to_high_speed() + hs_revert(J) + [
+        S(J, (), 9), S(SE0, ("T2P5US", "T2MS"), 4)] + chirps(3) + [S(SE0, (), 6)] + hs_revert(J) + [
+        S(J, (), 9), S(K, (), 4), S(SE0, (), 6)]
+    # sibling: plain FS life: failed handshake, FS suspend, resume, FS suspend, reset from suspend (restricted)
+    sc["fs_suspend_resume"] = [
+        S(J, (), 6), S(SE0, RESET_TO_CHIRP_END + ("T2P5MS",), 9), S(J, "T3MS", 5), S(K, (), 3), S(J, "T3MS", 5),
+        S(SE0, "T2P5US", 3, fso=True), S(J, (), 6, fso=True)]
     # (c) restriction appears in HS; (b) restricted devices never chirp; low-speed idle polarity
     sc["restrictions"] = to_high_speed() + [
         S(SE0, (), 5, fso=True), S(SE0, "T5US", 4, fso=True), S(J, (), 6, fso=True), S(J, (), 4),
@@ -408,11 +426,10 @@ def structured_scenarios(rng, tier):
         S(J, "T2P5US", 3, disc=True), S(J, (), 6), S(SE0, "T5US", 2, fso=True), S(J, (), 3)] + to_high_speed() + [
         S(SE0, (), 3, vbus=False), S(J, (), 5), S(SE0, RESET_TO_CHIRP_END, 4)] + chirps(3) + [
         S(K, (), 2, disc=True), S(K, "T2P5US", 2, disc=True), S(J, (), 6)]
-    # resume from HS suspend while restricted; reset during HS-suspend
-    sc["hs_suspend_variants"] = to_high_speed() + hs_revert(J) + [
-        S(J, (), 6, fso=True), S(K, (), 3, fso=True), S(J, (), 5),
-        S(SE0, RESET_TO_CHIRP_END, 4)] + chirps(3) + [S(SE0, (), 6)] + hs_revert(J) + [
-        S(SE0, ("T2P5US", "T2MS"), 4)] + chirps(3) + [S(SE0, (), 6)] + hs_revert(K) + [S(SE0, "T2MS", 9), S(J, (), 4)]
+    # resume from HS suspend while restricted; HS reset with a K at the sample point
+    sc["hs_suspend_resume_restricted"] = to_high_speed() + hs_revert(J) + [
+        S(J, (), 6, fso=True), S(K, (), 3, fso=True), S(J, (), 5)]
+    sc["hs_reset_confused_line"] = to_high_speed() + hs_revert(K) + [S(SE0, "T2MS", 9), S(J, (), 4)]
     if tier != "quick":
         for t in range(24):
             n = r(2, 5)
@@ -532,16 +549,26 @@ def _run_mc(job):
     return label, res, bounds
 
 
-def _scripts_from_tlc(seed, num, depth):
+def _simulate_part(args):
+    seed, num, depth = args
     cfg = tlc.render_cfg(_cfg("MCUsb2Reset_sim.cfg.tmpl"), spec_constants(SCALED, SLACK_SCALED))
-    behs = tlc.simulate(SPEC_DIR, "MCUsb2ResetSim", cfg, num=num, depth=depth, seed=seed, timeout=1800)
+    return tlc.simulate(SPEC_DIR, "MCUsb2ResetSim", cfg, num=num, depth=depth, seed=seed, timeout=1800)
+
+
+def _scripts_from_tlc(seed, num, depth, parts=4):
+    """TLC -simulate, `parts` JVMs side by side (seeds derived from VERIF_SEED; results in a fixed order)."""
+    per = (num + parts - 1) // parts
+    with ThreadPoolExecutor(max_workers=parts) as ex:
+        chunks = list(ex.map(_simulate_part, [(seed * 100 + k, per, depth) for k in range(parts)]))
     scripts = []
-    for b in behs:
-        if b[-1][1].get("bad") != "ok":
-            raise tlc.TLCError("specification-only counterexample in ScriptSpec: %s" % b[-1][1].get("bad"))
-        segs = [st["seg"] for act, st in b if act == "SLoad"][:-1]     # the last one may have been cut short
-        if segs:
-            scripts.append([{"i": {k: sg["i"][k] for k in IN_NAMES}, "k": list(sg["k"]), "d": sg["d"]} for sg in segs])
+    for behs in chunks:
+        for b in behs:
+            if b[-1][1].get("bad") != "ok":
+                raise tlc.TLCError("specification-only counterexample in ScriptSpec: %s" % b[-1][1].get("bad"))
+            segs = [st["seg"] for act, st in b if act == "SLoad"][:-1]     # the last one may have been cut short
+            if segs:
+                scripts.append([{"i": {k: sg["i"][k] for k in IN_NAMES}, "k": list(sg["k"]), "d": sg["d"]}
+                                for sg in segs])
     return scripts
 
 
@@ -573,7 +600,7 @@ def check_C19(rep):
     # ---- 1. exhaustive exploration of the specification (several TLC runs in parallel threads)
     if quick:
         mcs = [_mc_job("line", SCALED, SLACK_SCALED, (0, 1, 2), ()),
-               _mc_job("edges line+fso+busy", SCALED, SLACK_SCALED, (0, 1, 2), ("fso", "busy"), edges=True),
+               _mc_job("edges line+fso", SCALED, SLACK_SCALED, (0, 1, 2), ("fso",), edges=True),
                _mc_job("leaps (small scale)", SCALED_SMALL, SLACK_SCALED, (0, 1, 2, 3), (), leap=15)]
     else:
         mcs = [_mc_job("line4", SCALED, SLACK_SCALED, (0, 1, 2, 3), ()),
@@ -587,61 +614,77 @@ def check_C19(rep):
     pool = ThreadPoolExecutor(max_workers=3)
     mc_futs = [pool.submit(_run_mc, j) for j in mcs]
 
-    # ---- 2. stimuli
-    scripts = _scripts_from_tlc(rep.seed, 40 if quick else 240, 260 if quick else 400)
+    # ---- 2./3. stimuli, played on the real gateware in worker processes.  The directed scenarios, witnesses and
+    # random walks start at once; the TLC-simulated scripts join as soon as TLC has produced them.
+    stamps = {}
+    nproc = int(os.environ.get("VERIF_PROCS", "12"))
     structured = structured_scenarios(rng, rep.tier)
     witnesses = witness_scenarios()
-    jobs = []          # (group, kind, consts, [(scenario, meta)])
+    randoms = [random_scaled_scenario(rng, SCALED, 300) for _ in range(40 if quick else 400)]
+    jobs = []          # (group, kind, consts, [(scenario, meta)], future)
+    ex = ProcessPoolExecutor(max_workers=nproc)
 
     def add(group, kind, consts, items):
-        jobs.append((group, kind, consts, items))
+        use = REAL if consts is None else consts
+        conc = [concretise(s, use, m.get("budget"))[0] for s, m in items]
+        jobs.append((group, kind, consts, items, ex.submit(_worker, (kind, consts, conc))))
 
     def metas(prefix, scns):
         return [(s, {"origin": prefix, "n": i}) for i, s in enumerate(scns)]
 
-    scaled_items = metas("tlc-script", scripts)
-    scaled_items += [(s, {"origin": "structured", "name": n}) for n, s in sorted(structured.items())]
-    scaled_items += metas("random", [random_scaled_scenario(rng, SCALED, 300) for _ in range(40 if quick else 400)])
-    scaled_w = [(s, {"origin": "witness", "name": n}) for n, s in sorted(witnesses.items())]
-    nproc = int(os.environ.get("VERIF_PROCS", "8"))
-    chunk = max(1, (len(scaled_items) + nproc - 1) // nproc)
-    for i in range(0, len(scaled_items), chunk):
-        add("scaled", "seq", SCALED, scaled_items[i:i + chunk])
-    add("scaled", "seq", SCALED, scaled_w)
-    dev_items = metas("tlc-script", scripts[:12 if quick else 80]) + \
-        [(s, {"origin": "structured", "name": n}) for n, s in sorted(structured.items())][:12]
-    add("scaled-dev", "dev", SCALED, dev_items)
-    # real constants: one scenario per job (each takes seconds); budget per scenario in cycles
-    budget = 650_000 if quick else 2_500_000
-    real_items = [(s, {"origin": "structured", "name": n}) for n, s in sorted(structured.items())]
-    picks = scripts[:6] if quick else scripts[:110]
-    real_items += metas("tlc-script", picks)
-    real_items += [(s, {"origin": "witness", "name": n}) for n, s in sorted(witnesses.items())]
-    for it in real_items:
+    def chunks(items, n):
+        size = max(1, (len(items) + n - 1) // n)
+        return [items[i:i + size] for i in range(0, len(items), size)]
+
+    named = [(s, {"origin": "structured", "name": n}) for n, s in sorted(structured.items())]
+    wit = [(s, {"origin": "witness", "name": n}) for n, s in sorted(witnesses.items())]
+    # real constants: one scenario per job (each takes seconds), longest first
+    real_first = sorted(named + wit, key=lambda it: -concretise(it[0], REAL)[1])
+    for it in real_first:
         add("real", "seq", None, [it])
     if not quick:
-        add("real-dev", "dev", None, [(structured["hs_life_cycle"], {"origin": "structured", "name": "hs_life_cycle"})])
+        add("real-dev", "dev", None, [it for it in named if it[1]["name"] in
+                                      ("hs_suspend_resume", "hs_suspend_reset_failed_fs_suspend_resume")])
+    add("scaled", "seq", SCALED, named + wit)
+    add("scaled-dev", "dev", SCALED, named)
+    for part in chunks(metas("random", randoms), 2 if quick else 8):
+        add("scaled", "seq", SCALED, part)
 
-    # ---- 3. run on the real gateware (worker processes)
-    work = []
-    for group, kind, consts, items in jobs:
-        use = REAL if consts is None else consts
-        conc = [concretise(s, use, budget if consts is None else None)[0] for s, _ in items]
-        work.append((kind, consts, conc))
-    with ProcessPoolExecutor(max_workers=nproc) as ex:
-        results = list(ex.map(_worker, work))
+    scripts = _scripts_from_tlc(rep.seed, 32 if quick else 240, 240 if quick else 400, parts=4 if quick else 6)
+    stamps["scripts_ready"] = round(time.time() - t_start, 1)
+    budget = 450_000 if quick else 2_500_000          # TLC scripts are cut at a cycle budget at the real constants
+    for s_, m_ in metas("tlc-script", scripts[:4] if quick else scripts[:110]):
+        add("real", "seq", None, [(s_, dict(m_, budget=budget))])
+    for part in chunks(metas("tlc-script", scripts), 4 if quick else 10):
+        add("scaled", "seq", SCALED, part)
+    add("scaled-dev", "dev", SCALED, metas("tlc-script", scripts[:12 if quick else 80]))
+
     groups = {}
-    for (group, kind, consts, items), (traces, cycles, wall) in zip(jobs, results):
+    for group, kind, consts, items, fut in jobs:
+        traces, cycles, _wall = fut.result()
         rep.add_eval(cycles)
         for (scn, meta), tr in zip(items, traces):
             m = dict(meta, dut="USBResetSequencer" if kind == "seq" else "USBDevice",
                      constants="USB2.0@60MHz" if consts is None else "scaled")
             groups.setdefault(group, []).append((tr, m))
+    ex.shutdown()
+    stamps["replayed"] = round(time.time() - t_start, 1)
 
-    # ---- 4. TLC validates every recorded trace
+    # ---- 4. TLC validates every recorded trace (one JVM per group, side by side; results applied in group order)
     drift_seen = {}
+
+    class _Calls:                      # records what validate_group reports, to be replayed onto `rep` in order
+        def __init__(self):
+            self.calls = []
+
+        def add_traces(self, n, steps):
+            self.calls.append(("add_traces", (n, steps)))
+
+        def violation(self, sig, what, replay):
+            self.calls.append(("violation", (sig, what, replay)))
+
     with tlc.scratch("u2r-info-") as d:
-        for group in sorted(groups):
+        def validate(group):
             items = groups[group]
             real = group.startswith("real")
             cfg = tlc.render_cfg(_cfg("Usb2ResetTrace.cfg.tmpl"),
@@ -660,9 +703,19 @@ def check_C19(rep):
             def classify(trace, matched, status, meta):
                 return {"clause": status, "pattern": _pattern_of(status, infos()[meta["idx"]])}
 
-            validate_group(rep, SPEC_DIR, "Usb2ResetTrace", cfg, items, classify=classify,
+            calls = _Calls()
+            validate_group(calls, SPEC_DIR, "Usb2ResetTrace", cfg, items, classify=classify,
                            what_prefix="[%s] " % group, chunk=10 ** 9, timeout=3600, env={"INFO_FILE": info_file})
-            for (tr, m), inf in zip(items, infos()):
+            return calls.calls, infos()
+
+        names = sorted(groups)
+        with ThreadPoolExecutor(max_workers=len(names)) as ex:
+            outcomes = list(ex.map(validate, names))
+        for group, (calls, infos_) in zip(names, outcomes):
+            items = groups[group]
+            for name, args in calls:
+                getattr(rep, name)(*args)
+            for (tr, m), inf in zip(items, infos_):
                 for tag in inf.get("ev", []):
                     rep.nontriv((group, "ev", tag))
                 for st in inf.get("st", []):
@@ -678,6 +731,7 @@ def check_C19(rep):
             if items:
                 tr, m = items[0]
                 rep.sample({"group": group, "scenario": m, "first_records": tr[:5], "records": len(tr)})
+    stamps["validated"] = round(time.time() - t_start, 1)
 
     # non-vacuity on real executions: every clause's antecedent must have been exercised by accepted traces
     need = {"reset_no_vbus", "reset_from_suspend", "reset_from_high_speed", "reset_at_full_low_speed",
@@ -699,7 +753,8 @@ def check_C19(rep):
                      "trigger predicate (KF_... in Usb2Reset.tla, evaluated by TLC on the real trace) and failed that "
                      "finding's clause; everything else is a VIOLATION")
     rep.extra["scenarios"] = {g: len(v) for g, v in groups.items()}
-    rep.extra["wall_breakdown_s"] = {"total": round(time.time() - t_start, 1)}
+    stamps["model_checked"] = round(time.time() - t_start, 1)
+    rep.extra["wall_breakdown_s"] = stamps
 
 
 CHECKS = {"C19": check_C19}
